@@ -1,0 +1,46 @@
+// Copyright © 2022-2026 Obol Labs Inc. Licensed under the terms of a Business Source License 1.1
+
+//go:build verif
+
+// Verification contracts (comments only; read by /verif/govc, never compiled into charon).
+package timer
+
+//@ pure featureset.Enabled time.Time.Add time.Time.Sub time.Time.IsZero clockwork.Clock.Now
+
+// Round timeouts: positive, at least the first round's, non-decreasing in the round (termination, C04, assumes
+// message latencies below a third of the SHORTEST round timeout: that one must be what the table says).
+//@ func increasingRoundTimeout
+//@ props C04
+//@ pure
+//@ ensures result == 750000000 + round*250000000
+
+//@ func linearRoundTimeout
+//@ props C04
+//@ pure
+//@ ensures result == round*1000000000
+
+//@ func proposalRoundTimeout
+//@ props C04
+//@ pure
+//@ ensures result == round*1000000000 + 500000000
+
+//@ func (t increasingRoundTimer) Timer
+//@ props C04
+//@ callreq t.clock.NewTimer: a1 == increasingRoundTimeout(round) || (t.duty.Type == core.DutyProposer && round == 1 && a1 == proposalRoundTimeout(round))
+//@ callreq t.clock.NewTimer: round >= 1 ==> a1 >= 1000000000
+//@ ensures ncalls(t.clock.NewTimer) == 1
+
+//@ func (t *linearRoundTimer) Timer
+//@ props C04
+//@ callreq t.clock.NewTimer: round >= 1 ==> a1 >= 200000000*round && (round == 1 ==> a1 >= 1000000000)
+//@ ensures ncalls(t.clock.NewTimer) == 1
+
+// The eager timer fixes each round's deadline the first time the round is timed: re-timing a round never extends it,
+// and the first deadline is the round timeout after the duty start (or after now when no timing is configured).
+//@ func (t *doubleEagerLinearRoundTimer) Timer
+//@ props C04
+//@ assigns t.firstDeadlines
+//@ ensures has(t.firstDeadlines, round)
+//@ ensures has(old(t.firstDeadlines), round) ==> t.firstDeadlines == old(t.firstDeadlines)
+//@ ensures forallk(r, old(t.firstDeadlines), has(t.firstDeadlines, r) && t.firstDeadlines[r] == old(t.firstDeadlines)[r])
+//@ ensures ncalls(t.clock.NewTimer) == 1
